@@ -29,14 +29,6 @@ type LongCase struct {
 	EveryMS      int    `json:"every_ms"`
 }
 
-var longRun struct {
-	mu      sync.Mutex
-	started bool
-	c       LongCase
-	done    chan struct{}
-	fail    *failure
-}
-
 func runLong(c LongCase) *failure {
 	appA, rA := vkit.NewBufConnPair("10.3.0.1:40001", "10.3.0.2:7001")
 	rB, appB := vkit.NewBufConnPair("10.4.0.2:7002", "10.4.0.1:40002")
@@ -102,21 +94,67 @@ func runLong(c LongCase) *failure {
 	return nil
 }
 
+// bgJob: one slow case that runs in the background of the whole binary.
+type bgJob struct {
+	c    Case
+	done chan struct{}
+	fail *failure
+}
+
+var bgJobs struct {
+	mu   sync.Mutex
+	jobs []*bgJob
+}
+
+// slowLimited: a bandwidth limit so low that the transfer outlasts the limiter's initial
+// bucket and every 32 KiB chunk has to be waited for over several seconds (about 8 s in
+// all): 64 KiB pre-buffered, so that the relay reads two full copy buffers.
+func slowLimited(op string) Case {
+	return Case{TCP: &TCPCase{SeedA: 41, SeedB: 42, FailReadA: -1, FailReadB: -1, FailWriteA: -1, FailWriteB: -1,
+		Limit: 6500, Pre: 1, Steps: []TCPStep{{Op: op, N: 65536}, {Op: "hcA"}, {Op: "hcB"}}}}
+}
+
 // TestAALongHalfClosedStart must stay the first test of the binary (file name order).
+// Background jobs by shard: 0,1 long-lived half-closed connection (one orientation each);
+// 2,3 slow bandwidth-limited transfer (one direction each).
 func TestAALongHalfClosedStart(t *testing.T) {
-	if vkit.Replaying() != "" || vkit.Shard() > 1 {
-		t.Skip("long-lived case runs on shards 0 and 1")
+	if vkit.Replaying() != "" {
+		t.Skip("replay")
 	}
-	longRun.mu.Lock()
-	defer longRun.mu.Unlock()
-	longRun.started = true
-	longRun.c = LongCase{FirstToClose: []string{"A", "B"}[vkit.Shard()%2], Seconds: vkit.Pick(12, 35), EveryMS: 250}
-	longRun.done = make(chan struct{})
-	go func() {
-		f := runLong(longRun.c)
-		longRun.mu.Lock()
-		longRun.fail = f
-		longRun.mu.Unlock()
-		close(longRun.done)
-	}()
+	all := []Case{
+		{Long: &LongCase{FirstToClose: "A", Seconds: vkit.Pick(12, 35), EveryMS: 250}},
+		{Long: &LongCase{FirstToClose: "B", Seconds: vkit.Pick(12, 35), EveryMS: 250}},
+		slowLimited("sendA"),
+		slowLimited("sendB"),
+	}
+	bgJobs.mu.Lock()
+	defer bgJobs.mu.Unlock()
+	for i, c := range all {
+		if i%vkit.NShards() != vkit.Shard() || vkit.Shard() >= len(all) {
+			continue
+		}
+		j := &bgJob{c: c, done: make(chan struct{})}
+		bgJobs.jobs = append(bgJobs.jobs, j)
+		go func() {
+			var f *failure
+			if j.c.Long != nil {
+				f = runLong(*j.c.Long)
+			} else {
+				f, _, _, _ = runTCPOpt(j.c.TCP, true)
+			}
+			bgJobs.mu.Lock()
+			j.fail = f
+			bgJobs.mu.Unlock()
+			close(j.done)
+		}()
+	}
+	// the foreground cases diff the process-wide number of relay goroutines: let the
+	// background relays come up before the first foreground case takes its baseline
+	deadline := time.Now().Add(3 * time.Second)
+	for len(bgJobs.jobs) > 0 && time.Now().Before(deadline) {
+		if n, _ := relayGoroutines(); n >= 3*len(bgJobs.jobs) {
+			break
+		}
+		time.Sleep(time.Millisecond)
+	}
 }
